@@ -61,7 +61,11 @@ func ReadBlockFrom(r io.Reader) (int64, [][]string, error) {
 	}
 	total := int64(m)
 	n := binary.BigEndian.Uint32(b)
-	blk := make([][]string, n)
+	prealloc := n
+	if prealloc > maxPrealloc {
+		prealloc = maxPrealloc
+	}
+	blk := make([][]string, 0, prealloc)
 	var i uint32
 	dec := NewStrListDecoder(false)
 	for i = 0; i < n; i++ {
@@ -69,7 +73,7 @@ func ReadBlockFrom(r io.Reader) (int64, [][]string, error) {
 		if err != nil {
 			return 0, nil, err
 		}
-		blk[i] = line
+		blk = append(blk, line)
 		total += int64(m)
 	}
 	return total, blk, nil
